@@ -165,7 +165,13 @@ var pureExternal = map[string]bool{
 	"(*os/exec.ExitError).Error": true, "(*go/build.Context).Import": false,
 }
 
-var purePkgs = map[string]bool{"strconv": true, "strings": true, "bytes": true, "unicode": true, "unicode/utf8": true, "path": true, "path/filepath": true, "errors": true}
+var purePkgs = map[string]bool{"strconv": true, "strings": true, "bytes": true, "unicode": true, "unicode/utf8": true, "path": true, "path/filepath": true, "errors": true, "cmp": true}
+
+// readOnlyStd: a routine of slices / maps that does not write to its arguments.
+func readOnlyStd(f *ssa.Function) bool {
+	pk := pkgPathOf(f)
+	return (pk == "slices" || pk == "maps") && !stdMutators[baseFuncName(f)]
+}
 
 // receiver-mutating external methods on private buffers
 var recvMutExternal = map[string]bool{
@@ -639,17 +645,35 @@ func (g *CallGraph) analyse(f *ssa.Function) bool {
 				}
 				continue
 			}
-			n := sc.String()
-			pk := ""
-			if sc.Pkg != nil {
-				pk = sc.Pkg.Pkg.Path()
-			}
+			n := baseFuncName(sc)
+			pk := pkgPathOf(sc)
 			switch {
+			case readOnlyStd(sc):
+				// slices.Contains / Index / ContainsFunc / maps.Clone …: reads only; a function value handed
+				// to it is called — account for what it can be
+				for _, ar := range cc.Args {
+					if _, isFn := ar.Type().Underlying().(*types.Signature); isFn {
+						if targets, ok := g.resolveFuncValue(f, ar, 0, map[ssa.Value]bool{}); ok {
+							for _, tg := range targets {
+								if g.Sum[tg] != nil {
+									sum.Callees[tg] = true
+									g.propagateParamsOnly(f, sum, g.Sum[tg], nil, ci.Pos())
+								}
+							}
+						} else {
+							sum.FuncVal = true
+						}
+					}
+				}
+			case stdMutators[n] && len(cc.Args) > 0:
+				addEff("extmut", g.roots(f, cc.Args[0]), n, ci.Pos(), self, "")
 			case fsMutators[n]:
 				addEff("fs", RootSet{Root{Kind: "unknown", Name: "fs"}: true}, n, ci.Pos(), self, "")
-			case pureExternal[n] || purePkgs[pk] || strings.HasPrefix(n, "(*regexp.Regexp)."):
 			case recvMutExternal[n] && len(cc.Args) > 0:
+				// a buffer method that writes to its receiver: an effect on wherever that buffer lives
+				// (nothing if it was made in this call)
 				addEff("extmut", g.roots(f, cc.Args[0]), n, ci.Pos(), self, "")
+			case pureExternal[n] || purePkgs[pk] || strings.HasPrefix(n, "(*regexp.Regexp)."):
 			case (pk == "sort" || pk == "slices") && len(cc.Args) > 0:
 				addEff("extmut", g.roots(f, cc.Args[0]), n, ci.Pos(), self, "")
 			default:
@@ -873,4 +897,40 @@ func (c *Ctx) callersIncludingValueUses(f *ssa.Function) []*ssa.Function {
 		}
 	}
 	return out
+}
+
+// pkgPathOf: the package a function belongs to — also for instantiations of generic functions and
+// synthetic wrappers, which have no ssa.Package of their own.
+func pkgPathOf(f *ssa.Function) string {
+	if f == nil {
+		return ""
+	}
+	if f.Pkg != nil {
+		return f.Pkg.Pkg.Path()
+	}
+	if o := f.Origin(); o != nil && o.Pkg != nil {
+		return o.Pkg.Pkg.Path()
+	}
+	if obj := f.Object(); obj != nil && obj.Pkg() != nil {
+		return obj.Pkg().Path()
+	}
+	return ""
+}
+
+// baseFuncName: the function's name without the type arguments of an instantiation
+// ("slices.Contains[[]string string]" -> "slices.Contains").
+func baseFuncName(f *ssa.Function) string {
+	n := f.String()
+	if i := strings.Index(n, "["); i >= 0 {
+		n = n[:i]
+	}
+	return n
+}
+
+// stdMutators: the routines of the generic library packages that write to their first argument;
+// everything else in slices / maps / cmp only reads its arguments.
+var stdMutators = map[string]bool{
+	"slices.Sort": true, "slices.SortFunc": true, "slices.SortStableFunc": true, "slices.Reverse": true, "slices.Insert": true,
+	"slices.Delete": true, "slices.DeleteFunc": true, "slices.Compact": true, "slices.CompactFunc": true, "slices.Replace": true,
+	"slices.Grow": true, "slices.Clip": true, "maps.Copy": true, "maps.DeleteFunc": true, "maps.Insert": true,
 }
